@@ -45,13 +45,13 @@ func CreateCompiler(funcName string, parent Compiler, checker types.Checker, loc
 	switch parent := parent.(type) {
 	case nil:
 		cmp := NewBytecodeCompiler(funcName, topLevelBytecodeCompilerMode, loc, checker, newBytecodeGlobalData())
-		cmp.additionalAbortChecks = additionalAbortChecks
+		cmp.setAdditionalAbortChecks(additionalAbortChecks)
 		cmp.Errors = errors
 		cmp.SetParent(parent)
 		return cmp
 	case *BytecodeCompiler:
 		cmp := NewBytecodeCompiler(funcName, topLevelBytecodeCompilerMode, loc, checker, parent.globalData)
-		cmp.additionalAbortChecks = additionalAbortChecks
+		cmp.setAdditionalAbortChecks(additionalAbortChecks)
 		cmp.Errors = errors
 		cmp.SetParent(parent)
 		return cmp
